@@ -277,7 +277,8 @@ _ALSO = {
             "option values and representative token texts; dominance / call-site audits"),
     "C09": ("a sign followed by a character the macro joins is a symbol for the text parser too (two open findings: `-.`, "
             "`+.`); the macro's alphabets are obtained by abstract evaluation of its token parser for each ASCII "
-            "punctuation character with the token stream symbolic.",
+            "punctuation character with the token stream symbolic; a character reported Spacing::Alone ends the macro's symbol "
+            "and a Joint one continues it, at the start of a symbol and inside one (70 cases).",
             "abstract evaluation of the macro crate's token parser per punctuation character, compared with byte classes "
             "and token kinds extracted from the text parser"),
     "C10": ("the dotted-tail handling of the list twins maps each tail token to the same outcome.", None),
